@@ -639,12 +639,11 @@ impl Check for C09 {
             && plan.connects.iter().all(|c| matches!(c, ConnectSpec::Ok | ConnectSpec::DelayMs(_)))
             && !serial_mismatch(plan);
         if fault_free {
+            // (the other properties' rules of the exact model are their own checks' business; what C09
+            // needs from a run without faults - calls succeed, no reconnect - is R3/R5 above and the line below)
             for (prop, v) in judge_fault_free(plan, &run).v {
                 if prop == "*" {
                     out.violations.push(v);
-                } else {
-                    // serial case variants etc.: any model deviation means the connection was not accepted as it should
-                    out.fail("fault_free_deviation", format!("{prop}/{}", v.rule), v.detail);
                 }
             }
             if run.conns.len() > 1 {
